@@ -293,7 +293,8 @@ CLAIMED = {
              "(C13_immediate), and whenever a slot is free while requests are queued some queued listener has been notified (C13_not_stranded), "
              "wake counters only grow, listeners are owned by pending requests. Partial as the brief says: the two crates are third-party code tied by "
              "differential execution of single-threaded histories (random + directed: k releases in a row with waiters queued, cancellation of the "
-             "notified waiter, barging) with one counting waker per request; thread interleavings inside their atomics are below the model's granularity.",
+             "notified waiter, barging; tokens handed to Token::run on idle connections and on connections whose request is in flight with its epilogue "
+             "stuck; Runner::shutdown of a clone while its connections are idle or in flight; limits up to 70000) with one counting waker per request; thread interleavings inside their atomics are below the model's granularity.",
         design="6/C13, 13.3", technique="Coq proof (inductive invariant over all operation histories of the semaphore/event-listener model) + differential execution of histories on the real Runner with counting wakers",
         note="async-lock / event-listener internals modelled from source, not verified; single-threaded granularity; clones share the semaphore by construction."),
     "C14": dict(
@@ -308,7 +309,8 @@ CLAIMED = {
              "C14_pending_read_sees_stop - the read between requests is given up as soon as shutdown is requested, nothing further is read or "
              "written; end to end this is also exercised by the correspondence check (shutdown requested before every scheduling step k of Pending-heavy "
              "connections, idle clients woken by shutdown) + oracle. The wait-group windows are forced on the real crate through the "
-             "cfg(fastcgi_server_verif) hook (/repo ed42bbf).",
+             "cfg(fastcgi_server_verif) hook (/repo ed42bbf); in addition mode wg_race runs real two-thread races of one poll against the last token "
+             "drop (10^5 steered trials per case; sound oracle, probabilistic detection) as a supporting search for windows no hook reaches.",
         design="6/C14, 13.4", technique="Coq proof (wait-group transition system, all window placements) + differential execution with hook-forced interleavings and shutdown injected at every scheduling step",
         note="Arc/Weak/AtomicWaker modelled; select polls its left future first (modelled); all clauses have theorems; the composition over a whole connection is exercised by the correspondence check."),
 }
